@@ -21,7 +21,10 @@ pub fn run(args: &Args) {
     let corpus = crate::c02::corpus_files();
     let ncorpus = corpus.len() as u64;
     let per_corpus = if args.tier == "thorough" { 15 } else { 5 };
-    let a2 = Args { cases: args.cases + ncorpus * per_corpus, ..Args::parse() };
+    // files written by the grammar-based generator (other serialisation styles: indented XML, apostrophe-quoted attributes, ...)
+    let grammar: Vec<std::path::PathBuf> = args.get("list").map(|l| std::fs::read_to_string(l).unwrap_or_default().lines().filter(|x| !x.is_empty()).map(std::path::PathBuf::from).collect()).unwrap_or_default();
+    let ngrammar = grammar.len() as u64;
+    let a2 = Args { cases: args.cases + ncorpus * per_corpus + ngrammar, ..Args::parse() };
     let agg = run_cases(&a2, |seed, k| {
         let mut o = Outcome::default();
         let mut rng = Rng::new(seed, k);
@@ -29,6 +32,9 @@ pub fn run(args: &Args) {
             let p = &corpus[(k / per_corpus) as usize];
             o.feat("corpus");
             (std::fs::read(p).unwrap(), p.file_name().unwrap().to_string_lossy().to_string())
+        } else if k < ncorpus * per_corpus + ngrammar {
+            o.feat("grammar-generated-file");
+            (std::fs::read(&grammar[(k - ncorpus * per_corpus) as usize]).unwrap(), "generated".to_string())
         } else {
             let mut o2 = Outcome::default();
             let book = match guard(|| crate::c02::build(&mut rng, &mut o2)) {
